@@ -478,6 +478,7 @@ def rule_08_7(rep, fx):
     rule_08_13(rep, fx)
     rule_08_14(rep, fx)
     rule_08_15(rep, fx)
+    rule_08_16(rep, fx)
 
 
 def rule_08_8(rep, fx):
@@ -971,3 +972,70 @@ def _calls_in(t):
                 rec(y)
     rec(t)
     return out
+
+
+def rule_08_16(rep, fx):
+    """LENGTH_UNLIMITED (-1) is not a bound (raised F36: with KeepAll the keep count fell back to max_samples_per_instance = -1, `len - (-1)` samples were evicted on every
+    arrival, i.e. all of them: the lose-nothing configuration delivered nothing)."""
+    rep.rule('R08.16', 'an unlimited resource limit evicts nothing: in DataSampleCache::add_sample the keep count that the eviction subtracts from the number of samples of the '
+                       'instance takes max_samples_per_instance only through a test that it is not negative (Option::filter(|l| l >= 0) and equivalent forms, or a dominating edge)')
+    b = [x for x in fx.bodies if x.name == 'add_sample' and x.key.startswith('dds::with_key::datasample_cache::DataSampleCache') and x.kind in ('fn', 'assoc_fn')]
+    if len(b) != 1:
+        raise CheckBroken('R08.16: DataSampleCache::add_sample not found')
+    b = b[0]
+    rep.analysed(b)
+    og = Origins(b, summaries=False)
+    P = Pos(b)
+    subs = []
+    for bb, si, st in b.statements():
+        if st['s'] == 'assign' and st['rv'].get('r') in ('bin', 'checked_bin') and st['rv'].get('op') in ('Sub', 'SubWithOverflow'):
+            t = og._rvalue(st['rv'], bb, si, 0)
+            if term_has(t, lambda x: x[0] == 'call' and x[1].rsplit('::', 1)[-1] == 'len') and term_has(t, lambda x: x[0] == 'field' and x[1] == 'instance_samples'):
+                subs.append((bb, si, t))
+    if not subs:
+        raise CheckBroken('R08.16: the eviction count (len(instance_samples) - keep) not found in add_sample')
+    nonneg = {('Ge', 0), ('Gt', -1), ('Ne', -1), ('ge', 0), ('gt', -1), ('ne', -1)}
+    good_closures = set()
+    for c in fx.closures_of(b):
+        oc = Origins(c, summaries=False)
+        for r in c.return_blocks():
+            v = oc.of_local(0, r, 'term')
+            if v[0] == 'bin' and len(v) > 3 and v[3][0] == 'const' and (v[1], v[3][-1]) in nonneg:
+                good_closures.add(c.key)
+            if v[0] == 'call' and len(v[2]) == 2 and v[2][1][0] == 'const' and (v[1].rsplit('::', 1)[-1], v[2][1][-1]) in nonneg:
+                good_closures.add(c.key)
+    guard = []
+    for s_, t_, c, lab in switch_edges(b, fx, og):
+        if term_has(c, lambda x: x[0] == 'field' and x[1] == 'max_samples_per_instance'):
+            op = c[1] if c[0] == 'bin' else (c[1].rsplit('::', 1)[-1] if c[0] == 'call' else None)
+            k = [x[-1] for x in (c[2:] if c[0] == 'bin' else c[2]) if isinstance(x, tuple) and x[0] == 'const']
+            if op and k:
+                pos = (op, k[0]) in nonneg
+                neg = (op, k[0]) in {('Lt', 0), ('Le', -1), ('Eq', -1), ('lt', 0), ('le', -1), ('eq', -1)}
+                if (pos and lab is True) or (neg and lab is False):
+                    guard.append((s_, t_))
+    ok = True
+    shown = ''
+    for bb, si, t in subs:
+        keep = t[3] if t[0] == 'bin' and len(t) > 3 else t
+        shown = term_str(keep)[:200]
+
+        def unguarded(x, inside=False):
+            # a mention of max_samples_per_instance outside a filter(.., <non-negativity closure>)
+            if x[0] == 'field' and x[1] == 'max_samples_per_instance':
+                return not inside
+            if x[0] == 'call' and x[1].rsplit('::', 1)[-1] in ('filter', 'take_if') and any(isinstance(a, tuple) and a[0] == 'agg' and str(a[1]) in good_closures for a in x[2]):
+                inside = True
+            kids = []
+            for y in x[1:]:
+                if isinstance(y, tuple):
+                    if y and isinstance(y[0], str):
+                        kids.append(y)
+                    else:
+                        kids.extend(z for z in y if isinstance(z, tuple))
+            return any(unguarded(k, inside) for k in kids)
+        if unguarded(keep) and not (guard and P.every_path_passes(None, (bb, si), via_edges=guard, from_entry=True)):
+            ok = False
+    rep.check(ok, 'R08.16', 'add_sample/unlimited-is-no-bound', 'max_samples_per_instance bounds the instance only when it is not negative',
+              'DataSampleCache::add_sample uses max_samples_per_instance as the number of samples to keep without testing that it is not LENGTH_UNLIMITED (-1): with History KeepAll '
+              'and the default (unlimited) resource limits len + 1 samples are evicted on every arrival, the DataReader never returns anything (keep count: %s)' % shown, b.where())
